@@ -17,16 +17,16 @@ PROP = {
     "level_text": "Proof (all inputs of the model): percent decode . encode = id for every byte string with the "
                   "encode set read from source; apply-then-unapply returns exactly the parameter values for every "
                   "pattern with /-free literals and percent-normal distinct names and every map of non-empty strings, "
-                  "at URI level and (for values without '~': F12b witness proved) through the route string and the "
-                  "modelled RouteUri parser; a match never binds an empty string; matching depends on (scheme, path) "
-                  "only; one binding per parameter when decoded names differ (false in general: F12c witness); two "
-                  "patterns that match one URI are reported ambiguous when literals carry no percent escape (false "
-                  "in general: F12 witness), and always with the percent-decoded comparison of fixes/F12.patch; an "
-                  "accepted route table then matches every URI with at most one pattern; every pattern accepted by the "
-                  "parser automaton satisfies the structural side conditions. Tied to the real RoutePattern/RouteUri "
-                  "by differential execution of parse_str, apply, unapply_str, unapply_route_uri, are_ambiguous and "
-                  "RouteUri::from_str on generated patterns, maps, pattern pairs with synthesised URIs, malformed "
-                  "patterns, and exhaustive character/byte tables.",
+                  "at URI level and through the route string and the modelled RouteUri parser (every ASCII byte is "
+                  "escaped by apply or accepted by the path grammar: generated-table fact); a match never binds an "
+                  "empty string; matching depends on (scheme, path) only; one binding per parameter for every "
+                  "accepted pattern; two patterns that match one URI are always reported ambiguous; a route table "
+                  "accepted by PlaneBuilder::build matches every URI with at most one pattern, so find_route's first "
+                  "match is the only one; every pattern accepted by the parser automaton satisfies the structural "
+                  "side conditions. (F12, F12b, F12c repaired by fix: commits; their witnesses are regressions.) Tied "
+                  "to the real RoutePattern/RouteUri by differential execution of parse_str, apply, unapply_str, "
+                  "unapply_route_uri, are_ambiguous and RouteUri::from_str on generated patterns, maps, pattern "
+                  "pairs with synthesised URIs, malformed patterns, and exhaustive character/byte tables.",
     "level_note": "The percent-encoding crate, String::from_utf8_lossy and the nom combinators are modelled (byte "
                   "level, exact on the harness inputs) and not verified; patterns are modelled as byte automata, "
                   "equal to the char-level code on valid UTF-8 because every distinguished character is ASCII; "
